@@ -195,6 +195,35 @@ def convPixel (src dst : Mode) (px : List Nat) : Option (List Nat) :=
     | .one | .L | .LA => (toGray src px).map fun v => [0, 0, 0, 255 - v]
     | _ => (toRGBA src px).map fun (r, g, b, _) => [255 - r, 255 - g, 255 - b, 0]
 
+/-! ### palette images (mode "P"): a table lookup in front of the RGB conversions
+
+`PixelLayer.frompil` accepts them (`pil_im.convert(psd_file.pil_mode)`; `has_transparency_data` when the image
+carries `info["transparency"]`); `PSDImage.frompil` refuses them (`ColorMode` has no `P`). Not a `Mode` of the
+route model: correspondence and search only. -/
+
+/-- `im.info["transparency"]` of a palette image: absent, one fully transparent palette index, or one alpha per
+palette entry (entries beyond the table are opaque) -/
+inductive PTransparency where
+  | absent
+  | index (i : Nat)
+  | table (t : List Nat)
+  deriving Repr, DecidableEq
+
+/-- `im.convert("RGBA").getchannel("A")` on a pixel with palette index `idx` (`putpalettealpha` / `putpalettealphas`) -/
+def pAlpha : PTransparency → Nat → Nat
+  | .absent, _ => 255
+  | .index i, idx => if idx = i then 0 else 255
+  | .table t, idx => match t[idx]? with
+    | some a => a
+    | none => 255
+
+/-- `im.convert(dst)` on a pixel with palette index `idx` (`p2l`, `p2rgb`, `p2cmyk` … : the palette colour, then the
+RGB conversion); `none` for an index the palette does not have -/
+def convPalettePixel (palette : List (Nat × Nat × Nat)) (dst : Mode) (idx : Nat) : Option (List Nat) :=
+  match palette[idx]? with
+  | some (r, g, b) => convPixel .RGB dst [r, g, b]
+  | none => none
+
 /-! ### the concrete `Px` -/
 
 /-- an 8-bit sample -/
